@@ -84,14 +84,15 @@ const (
 )
 
 type Result struct {
-	Stdout    string
-	Exit      int
-	Steps     int
-	Undefined string // non-empty: program is outside the defined fragment
-	Features  map[string]int
-	Overflow  bool // some arithmetic result left the int32 range (64-bit runs only)
-	FS        map[string][]byte
-	MaxSlice  int
+	Stdout     string
+	Exit       int
+	Steps      int
+	Undefined  string // non-empty: program is outside the defined fragment
+	Features   map[string]int
+	Overflow   bool // some arithmetic result left the int32 range (64-bit runs only)
+	BigLiteral bool // an integer literal outside (MinInt32, MaxInt32] was evaluated
+	FS         map[string][]byte
+	MaxSlice   int
 }
 
 type NativeFunc func(args []Value) []Value
@@ -104,6 +105,7 @@ type Interp struct {
 	steps       int
 	feats       map[string]int
 	overflow    bool
+	bigLiteral  bool
 	globals     []map[string]*cell
 	funcs       []map[string]*FuncDecl
 	imports     []map[string]int // alias -> file index (-1 => native)
@@ -163,7 +165,7 @@ func (it *Interp) Run() (res Result) {
 }
 
 func (it *Interp) result(code int) Result {
-	return Result{Stdout: it.out.String(), Exit: code, Steps: it.steps, Features: it.feats, Overflow: it.overflow, FS: it.FS, MaxSlice: it.maxSlice}
+	return Result{Stdout: it.out.String(), Exit: code, Steps: it.steps, Features: it.feats, Overflow: it.overflow, BigLiteral: it.bigLiteral, FS: it.FS, MaxSlice: it.maxSlice}
 }
 
 func (it *Interp) undef(format string, a ...interface{}) {
@@ -297,6 +299,9 @@ func (it *Interp) eval(fr *frame, e Expr) Value {
 	it.step()
 	switch x := e.(type) {
 	case IntLit:
+		if x.V > math.MaxInt32 || x.V <= math.MinInt32 {
+			it.bigLiteral = true
+		}
 		return Value{T: TInt, I: it.wrap(x.V)}
 	case BoolLit:
 		return Value{T: TBool, B: x.V}
